@@ -69,9 +69,19 @@ def load_cov(orb, data):
     return cov
 
 
-def dump_cov(cov):
+def dump_cov(cov, frame=None):
+    """
+    Args:
+        cov (Cov): covariance to write
+        frame (Frame): frame of the state vector the covariance is attached to. The
+            covariance keeps a private copy of its state vector, in the frame it had
+            when the covariance was attached, which may not be its frame any more.
+    """
+    if frame is None:
+        frame = cov.orb.frame
+
     text = "\n"
-    if cov.frame != cov.orb.frame:
+    if cov.frame != frame:
         frame = cov.frame
         if frame == "QSW":
             frame = "RSW"
